@@ -42,7 +42,7 @@ def _classify(op, a, b):
     return ("view-differs", "")
 
 PROP = {
-    "thm": ["Umya.Thm.C02", "Umya.Thm.C02Bytes", "Umya.Thm.C02Sheet", "Umya.Thm.C02Book", "Umya.Thm.C02Gen", "Umya.Thm.C02SheetBytes", "Umya.Thm.C02Pkg", "Umya.Thm.C02PkgCmt", "Umya.Thm.C02PkgTbl"],
+    "thm": ["Umya.Thm.C02", "Umya.Thm.C02Bytes", "Umya.Thm.C02Sheet", "Umya.Thm.C02Book", "Umya.Thm.C02Gen", "Umya.Thm.C02SheetBytes", "Umya.Thm.C02Pkg", "Umya.Thm.C02PkgCmt", "Umya.Thm.C02PkgTbl", "Umya.Thm.C02PkgTblPkg"],
     "harness": "c02",
     "level": "proof",
     "stateful": True,
@@ -110,9 +110,13 @@ PROP = {
                   "package skeleton (skeletonT, tied on every run by `c02 pkgbridge`). Proved, for ANY package whose sheetK.xml.rels is the part the model writes (any links, any number of tables, with and without comments): what "
                   "the decoder's relsOf reads (C02_tbl_sheet_rels_read), the comments id shift (C02_tbl_comments_rel_shifted), ids pairwise different (C02_tbl_rel_ids_unique), the j-th tablePart r:id finds the j-th table "
                   "relationship and only it, whose target resolves from the sheet part to xl/tables/table{n}.xml (C02_tbl_table_parts_resolve); numbers 1..sum without repetition and distinct part names "
-                  "(C02_tbl_numbers_distinct, C02_tbl_part_names_distinct); without tables the pieces are those of the comments model (C02_tbl_plain_same_partial). NOT proved for tables: the whole-package statements "
-                  "(content-type coverage through the decoder's look-up, every relationship target IS a part of the package, decode pkg = (some book, []) with the tables per sheet) - there is no writePackageT yet; the table "
-                  "part TREE (table.rs) is not modelled. "
+                  "(C02_tbl_numbers_distinct, C02_tbl_part_names_distinct); without tables the pieces are those of the comments model (C02_tbl_plain_same_partial). "
+                  "WHOLE PACKAGE with tables (writePackageT / assembleT on top of the comments model: a sheet = SheetC + the opaque trees of its table parts, <tableParts> at the head of the children after legacyDrawing; "
+                  "Thm/C02PkgTblPkg.lean), for any number of sheets with and without comments / tables: every non-external relationship of every .rels part resolves to a part that IS in the package, the table "
+                  "relationships to xl/tables/table{n}.xml included (C02_tbl_package_rels_resolve); every part has a content type under the decoder's look-up (C02_tbl_content_types_cover: isSome, as for comments; WHICH "
+                  "type the table parts get - the table Override - is tied by pkgbridge, not proved); without tables writePackageT = writePackageC on the same sheets (C02_tbl_plain_same). NOT proved for tables: "
+                  "decode pkg = (some book, []) with the tables per sheet (C02_tbl_book_decodes), relationship-id uniqueness stated on the whole package (proved per sheet relationships part: C02_tbl_rel_ids_unique); the table "
+                  "part TREE (table.rs) is not modelled (opaque trees). "
                   "C02_book_decodes_partial (any package holding the rendered workbook parts, path resolution as hypothesis) stays as the more general, weaker statement; C02_sheet_names_case_fails is the witness of the defect repaired by fix 95713cc. "
                   "Tie to the code on every run: request `c02 sheetbridge` (trees of sheetN.xml / rels / workbook.xml / workbook.xml.rels / worksheet Overrides against the models, hypotheses of C02_sheet_decodes evaluated "
                   "on the real frame and its conclusion checked on the real package) and request `c02 pkgbridge` (generated workbooks incl. a dedicated generator with 1..6 sheets, with / without any string, "
@@ -156,7 +160,8 @@ PROP = {
                         "C02_cmt_sheet_rels_own_parts", "C02_cmt_rel_ids_unique", "C02_cmt_legacy_drawing_resolves", "C02_cmt_hyperlinks_unchanged",
                         "C02_cmt_package_no_diagnostics", "C02_cmt_book_decodes", "C02_cmt_package_written", "C02_cmt_plain_same",
                         "C02_tbl_sheet_rels_read", "C02_tbl_comments_rel_shifted", "C02_tbl_rel_ids_unique", "C02_tbl_table_parts_resolve",
-                        "C02_tbl_numbers_distinct", "C02_tbl_part_names_distinct", "C02_tbl_plain_same_partial"],
+                        "C02_tbl_numbers_distinct", "C02_tbl_part_names_distinct", "C02_tbl_plain_same_partial",
+                        "C02_tbl_package_rels_resolve", "C02_tbl_content_types_cover", "C02_tbl_plain_same"],
     "rule": "case = one workbook (generated from a per-case seed, or a corpus file re-saved) written with the standard or the light writer; every part is one request; "
             "the `decode` request compares violations (must be none) and the decoded view; the final `bridge` request carries the cell / <si> facts scanned from the real parts "
             "and (generated workbooks) the in-memory cells, and must answer ok; the `sheetbridge` and `pkgbridge` requests (generated workbooks) carry the in-memory sheets / workbook and must answer ok. non-trivial = every part / decode / bridge request; distinct = distinct request line",
@@ -175,9 +180,10 @@ PROP = {
                         "relationships, legacyDrawing, vml Default, comments Override); workbooks with custom properties, macros, ribbon, pivot "
                         "caches, raw sheets, or sheets with drawings / charts / images / OLE objects / printer settings / tables are outside the package model and are validated per file "
                         "(independent reader executed on every part; pkgbridge checks that the model skeleton is contained in theirs); TABLES are in the model at skeleton / relationship level only (PackageNodeTbl.lean, tied by pkgbridge: parts, content types, Overrides, relationships, "
-                        "tableParts r:ids, numbering across sheets) with theorems about the sheet's relationships part as read by the decoder, the tablePart ids and the numbering (C02_tbl_*); NOT proved: a whole package with table parts "
-                        "(no writePackageT / assembleT), so no C02_tbl_content_types_cover / C02_tbl_package_rels_resolve (target is a part of the package) / C02_tbl_book_decodes (tables returned per sheet; the sheet theorem's "
-                        "Frame.ok still excludes tableParts at schema position 37), no whole-package C02_tbl_plain_same (only C02_tbl_plain_same_partial on the pieces); the table part tree (table.rs: id, name, displayName, ref, "
+                        "tableParts r:ids, numbering across sheets) plus the whole-package model writePackageT with OPAQUE table trees; proved on the whole package: C02_tbl_package_rels_resolve, C02_tbl_content_types_cover (isSome only; "
+                        "that a table part gets the table type is tied, not proved), C02_tbl_plain_same; per sheet relationships part: C02_tbl_sheet_rels_read, C02_tbl_rel_ids_unique, C02_tbl_table_parts_resolve; NOT proved: "
+                        "C02_tbl_book_decodes (decode pkg = (some book, []) with the tables returned per sheet; the sheet theorem's Frame.ok still excludes tableParts at schema position 37) and whole-package id uniqueness / "
+                        "no-diagnostics for workbooks with tables; the table part tree (table.rs: id, name, displayName, ref, "
                         "columns) is not modelled, and uniqueness of table names / displayNames across the book is neither proved nor refuted (the writer takes the names from the Table objects unchecked; ids = part numbers are distinct)",
                         "comments: the package theorems say the comments / VML parts are present, typed, numbered, related and harmless to the decoded workbook; the independent decoder does not read comments "
                         "(BookV has none), so 'the comments are the workbook's' is C06's statement, not C02's; the bodies of both parts enter the byte-level claim only through `c02 part ... w` per file (VML parts are not claimed there)",
